@@ -158,23 +158,10 @@ let ctx_step n (c0 : M.n list M.chunk) (c1 : M.n list M.chunk) =
     && int_of_z c1.M.lEnd = int_of_z c0.M.lEnd + lenx post_e && int_of_z c1.M.rEnd = int_of_z c0.M.rEnd + lenx post_e in
   try_ false false || try_ true false || try_ false true || try_ true true
 
-(* Unify: every new chunk spans a run of consecutive old chunks (from the first one's start to the
-   last one's end, on both sides), in order, all old chunks used; old chunks in different runs
-   were at least one line apart, those in the same run were not *)
+(* Unify: the ranges of the new chunks are [unified_spans] of the list before (MdiffSpec.v,
+   extracted): every maximal run of touching chunks becomes one chunk spanning the run *)
 let unify_groups (prev : M.n list M.chunk list) (cur : M.n list M.chunk list) =
-  let rec go prev cur =
-    match cur, prev with
-    | [], [] -> true
-    | [], _ | _, [] -> false
-    | c :: cur', p :: prev' ->
-      if c.M.lStart <> p.M.lStart || c.M.rStart <> p.M.rStart then false else
-      let rec take (last : M.n list M.chunk) rest =
-        match rest with
-        | q :: rest' when int_of_z q.M.lStart <= int_of_z last.M.lEnd -> take q rest'
-        | _ -> (last, rest) in
-      let (last, rest) = take p prev' in
-      c.M.lEnd = last.M.lEnd && c.M.rEnd = last.M.rEnd && go rest cur' in
-  go prev cur
+  List.map M.span_of cur = M.unified_spans prev
 
 let spec_hist (ops, _script, lhs, rhs) out =
   match field out "E", field out "N", field out "H", field out "K" with
@@ -233,6 +220,7 @@ let spec prop inp out =
        (* ascending, disjoint (after New and Unify), not adjacent (after Unify; after New too) *)
        >>= fun () -> (if M.separatedb (z_of_int 0) cn then None else Some "after New: chunks not ascending and disjoint")
        >>= fun () -> (if M.separatedb (z_of_int 1) cu then None else Some "after Unify: chunks not ascending, disjoint and non-adjacent")
+       >>= fun () -> (if unify_groups ca cu then None else Some "after Unify: the chunks are not the runs of touching chunks of the list before")
        (* substituting the chunks turns Left into Right *)
        >>= fun () -> (if M.applies leq lhs rhs cn then None else Some "after New: applying the chunks to Left does not give Right")
        >>= fun () -> (if M.applies leq lhs rhs cu then None else Some "after Unify: applying the chunks to Left does not give Right")
